@@ -131,29 +131,36 @@ theorem clear_within_path (c : Cfg) (fs fs' : FS) (p : P) (h : clearPath c fs (s
 
 /-! ### every history of `reopen` / `close` calls, including calls that change `temp` and `fext` -/
 
-/-- inside the Filer's own head directories: below `headDirPath`, or below one of its `mkdtemp` directories -/
+/-- inside the Filer's own head directories: below the requested `headDirPath`, below one of its `mkdtemp`
+directories, or below the alternative head it falls back to -/
 def InHead (c : Cfg) (x : P) : Prop :=
-  c.head <+: x ∨ ∃ k, c.tempHead ++ [tmpSeg k] <+: x
+  c.head <+: x ∨ (∃ k, c.tempHead ++ [tmpSeg k] <+: x) ∨ c.altHead <+: x
 
-/-- what a history keeps true: neither head lies inside the other (static), the directories above the head and the
-temp head itself exist, and `.path`, once set, lies strictly inside a head -/
+/-- none of the three head directories lies inside another one -/
+def Apart (c : Cfg) : Prop :=
+  ¬ c.tempHead <+: c.head ∧ ¬ c.head <+: c.tempHead ∧ ¬ c.altHead <+: c.head ∧ ¬ c.head <+: c.altHead ∧
+  ¬ c.altHead <+: c.tempHead ∧ ¬ c.tempHead <+: c.altHead
+
+/-- the directories above the three heads (the temp head itself included) exist -/
+def Bases (c : Cfg) (fs : FS) : Prop :=
+  HeadOk fs c.head ∧ (∀ q, q <+: c.tempHead → q ≠ [] → kind? fs q ≠ none) ∧ HeadOk fs c.altHead
+
+/-- what a history keeps true -/
 def Inv (c : Cfg) (s : St) : Prop :=
-  (¬ c.tempHead <+: c.head ∧ ¬ c.head <+: c.tempHead) ∧
-  HeadOk s.fs c.head ∧ (∀ q, q <+: c.tempHead → q ≠ [] → kind? s.fs q ≠ none) ∧
-  ∀ p, s.path = some p → InHead c (dirname p)
+  Apart c ∧ Bases c s.fs ∧ ∀ p, s.path = some p → InHead c (dirname p)
 
 theorem InHead.mono {c : Cfg} {x y : P} (h : InHead c x) (hxy : x <+: y) : InHead c y := by
-  rcases h with h | ⟨k, h⟩
+  rcases h with h | ⟨k, h⟩ | h
   · exact Or.inl (h.trans hxy)
-  · exact Or.inr ⟨k, h.trans hxy⟩
+  · exact Or.inr (Or.inl ⟨k, h.trans hxy⟩)
+  · exact Or.inr (Or.inr (h.trans hxy))
 
 theorem prefix_antisymm {a b : P} (h1 : a <+: b) (h2 : b <+: a) : a = b :=
   List.IsPrefix.eq_of_length_le h1 h2.length_le
 
-theorem base_preserved (c : Cfg) (fs fs' : FS) (ht : Touched fs fs' (InHead c))
-    (hap : ¬ c.tempHead <+: c.head ∧ ¬ c.head <+: c.tempHead)
-    (h : HeadOk fs c.head ∧ (∀ q, q <+: c.tempHead → q ≠ [] → kind? fs q ≠ none)) :
-    HeadOk fs' c.head ∧ (∀ q, q <+: c.tempHead → q ≠ [] → kind? fs' q ≠ none) := by
+theorem base_preserved (c : Cfg) (fs fs' : FS) (ht : Touched fs fs' (InHead c)) (hap : Apart c)
+    (h : Bases c fs) : Bases c fs' := by
+  obtain ⟨a1, a2, a3, a4, a5, a6⟩ := hap
   have keep : ∀ q, ¬ InHead c q → kind? fs q ≠ none → kind? fs' q ≠ none := by
     intro q hn hk
     cases hk' : kind? fs q with
@@ -162,15 +169,22 @@ theorem base_preserved (c : Cfg) (fs fs' : FS) (ht : Touched fs fs' (InHead c))
       rcases (ht (q, k)).2 (kind?_some_mem hk') with hm | hm
       · exact kind?_ne_none_of_mem hm
       · exact absurd hm hn
-  refine ⟨fun q hq hne hnil => keep q ?_ (h.1 q hq hne hnil), fun q hq hne => keep q ?_ (h.2 q hq hne)⟩
-  · rintro (hk | ⟨k, hk⟩)
+  refine ⟨fun q hq hne hnil => keep q ?_ (h.1 q hq hne hnil), fun q hq hne => keep q ?_ (h.2.1 q hq hne),
+    fun q hq hne hnil => keep q ?_ (h.2.2 q hq hne hnil)⟩
+  · rintro (hk | ⟨k, hk⟩ | hk)
     · exact hne (prefix_antisymm hq hk)
-    · exact hap.1 ((List.prefix_append _ _).trans (hk.trans hq))
-  · rintro (hk | ⟨k, hk⟩)
-    · exact hap.2 (hk.trans hq)
+    · exact a1 ((List.prefix_append _ _).trans (hk.trans hq))
+    · exact a3 (hk.trans hq)
+  · rintro (hk | ⟨k, hk⟩ | hk)
+    · exact a2 (hk.trans hq)
     · have := (hk.trans hq).length_le
       simp at this
       omega
+    · exact a5 (hk.trans hq)
+  · rintro (hk | ⟨k, hk⟩ | hk)
+    · exact a4 (hk.trans hq)
+    · exact a6 ((List.prefix_append _ _).trans (hk.trans hq))
+    · exact hne (prefix_antisymm hq hk)
 
 theorem below_tail_dirname {B p : P} {clean : Bool} (h : B ++ tailSegs clean <+: p) : B <+: dirname p := by
   obtain ⟨t, rfl⟩ := h
@@ -184,58 +198,107 @@ theorem close_inside (c : Cfg) (s : St) (clear : Bool) (hi : Inv c s) :
   unfold close
   split
   · cases hp : s.path with
-    | none => simp only [clearPath]; exact ⟨Touched.refl _ _, ⟨hi.1, hi.2.1, hi.2.2.1, by simp [hp]⟩, by simp [hp], by simp, by simp⟩
+    | none => simp only [clearPath]; exact ⟨Touched.refl _ _, ⟨hi.1, hi.2.1, by simp [hp]⟩, by simp [hp], by simp, by simp⟩
     | some p =>
       split
       · rename_i fs' hc
-        have hin := hi.2.2.2 p hp
+        have hin := hi.2.2 p hp
         have t : Touched s.fs fs' (InHead c) :=
           (clear_within_path (cur c s) s.fs fs' p hc).2.mono (fun x hx => by
             split at hx
             · exact hin.mono hx
             · exact (hin.mono (dirname_prefix p)).mono hx)
-        have hb := base_preserved c _ _ t hi.1 ⟨hi.2.1, hi.2.2.1⟩
-        exact ⟨t, ⟨hi.1, hb.1, hb.2, fun q hq => hi.2.2.2 q (by rw [hp]; exact hq)⟩, rfl, rfl, rfl⟩
-      · exact ⟨Touched.refl _ _, ⟨hi.1, hi.2.1, hi.2.2.1, fun q hq => hi.2.2.2 q (by rw [hp]; exact hq)⟩, rfl, rfl, rfl⟩
-  · exact ⟨Touched.refl _ _, ⟨hi.1, hi.2.1, hi.2.2.1, hi.2.2.2⟩, rfl, rfl, rfl⟩
+        have hb := base_preserved c _ _ t hi.1 hi.2.1
+        exact ⟨t, ⟨hi.1, hb, fun q hq => hi.2.2 q (by rw [hp]; exact hq)⟩, rfl, rfl, rfl⟩
+      · exact ⟨Touched.refl _ _, ⟨hi.1, hi.2.1, fun q hq => hi.2.2 q (by rw [hp]; exact hq)⟩, rfl, rfl, rfl⟩
+  · exact ⟨Touched.refl _ _, ⟨hi.1, hi.2.1, hi.2.2⟩, rfl, rfl, rfl⟩
 
-/-- `remake` under whatever settings are in force touches only the inside of a head -/
-theorem remake_inside (c : Cfg) (c' : Cfg) (hh : c'.head = c.head) (hth : c'.tempHead = c.tempHead)
-    (clean : Bool) (fs : FS) (n : Nat)
-    (hb : HeadOk fs c.head ∧ (∀ q, q <+: c.tempHead → q ≠ [] → kind? fs q ≠ none)) :
-    Touched fs (remake c' clean fs n).1 (InHead c) ∧
-    ∀ p, (remake c' clean fs n).2.2 = .ok p → InHead c (dirname p) := by
-  by_cases ht : c'.temp = true
-  · obtain ⟨t, hp⟩ := remake_inside_tempdir c' clean fs n ht (hth ▸ hb.2)
-    rw [hth] at t hp
-    exact ⟨t.mono (fun x hx => Or.inr ⟨n, hx⟩), fun p h => Or.inr ⟨n, below_tail_dirname (hp p h)⟩⟩
-  · simp only [Bool.not_eq_true] at ht
-    obtain ⟨t, hp⟩ := remake_inside_head c' clean fs n ht (hh ▸ hb.1)
-    rw [hh] at t hp
-    exact ⟨t.mono (fun x hx => Or.inl hx), fun p h => Or.inl (below_tail_dirname (hp p h))⟩
+theorem headok_kept {fs fs' : FS} {H : P} {Q : P → Prop} (ht : Touched fs fs' Q)
+    (hq : ∀ q, q <+: H → q ≠ H → ¬ Q q) (h : HeadOk fs H) : HeadOk fs' H := by
+  intro q hp hne hnil
+  cases hk : kind? fs q with
+  | none => exact absurd hk (h q hp hne hnil)
+  | some k =>
+    rcases (ht (q, k)).2 (kind?_some_mem hk) with hm | hm
+    · exact kind?_ne_none_of_mem hm
+    · exact absurd hm (hq q hp hne)
+
+/-- a temporary Filer never takes the fallback: `remakeFull` either refuses before touching anything (no `TempHeadDir`)
+or is `remake` -/
+theorem remakeFull_temp (c : Cfg) (clean : Bool) (fs : FS) (n : Nat) (ht : c.temp = true) :
+    ((remakeFull c clean fs n).1 = fs ∧ ∀ p, (remakeFull c clean fs n).2.2 ≠ .ok p) ∨
+      remakeFull c clean fs n = remake c clean fs n := by
+  unfold remakeFull
+  split
+  · left; split <;> exact ⟨rfl, fun p h => by cases h⟩
+  · right
+    have : needsAlt c clean fs = none := by simp [needsAlt, ht]
+    simp [this]
+
+/-- `remake` (with its fallback) under whatever settings are in force touches only the inside of a head, and an
+accepted path lies strictly inside one -/
+theorem remakeFull_inside (c : Cfg) (c' : Cfg) (hh : c'.head = c.head) (hth : c'.tempHead = c.tempHead)
+    (hah : c'.altHead = c.altHead) (hap : Apart c) (clean : Bool) (fs : FS) (n : Nat) (hb : Bases c fs) :
+    Touched fs (remakeFull c' clean fs n).1 (InHead c) ∧
+    ∀ p, (remakeFull c' clean fs n).2.2 = .ok p → InHead c (dirname p) := by
+  have plain : Touched fs (remake c' clean fs n).1 (InHead c) ∧
+      ∀ p, (remake c' clean fs n).2.2 = .ok p → InHead c (dirname p) := by
+    by_cases ht : c'.temp = true
+    · obtain ⟨t, hp⟩ := remake_inside_tempdir c' clean fs n ht (hth ▸ hb.2.1)
+      rw [hth] at t hp
+      exact ⟨t.mono (fun x hx => Or.inr (Or.inl ⟨n, hx⟩)), fun p h => Or.inr (Or.inl ⟨n, below_tail_dirname (hp p h)⟩)⟩
+    · simp only [Bool.not_eq_true] at ht
+      obtain ⟨t, hp⟩ := remake_inside_head c' clean fs n ht (hh ▸ hb.1)
+      rw [hh] at t hp
+      exact ⟨t.mono (fun x hx => Or.inl hx), fun p h => Or.inl (below_tail_dirname (hp p h))⟩
+  unfold remakeFull
+  split
+  · split <;> exact ⟨Touched.refl _ _, fun p h => by cases h⟩
+  · split
+    · rename_i fs2 hna
+      obtain ⟨_, q, hq, hcl⟩ := needsAlt_spec c' clean fs fs2 hna
+      have hB : c.head <+: dirname (c'.head ++ tailSegs clean ++ q.reverse) := by
+        rw [hh]; unfold dirname
+        rw [List.append_assoc, List.dropLast_append_of_ne_nil (tail_append_ne_nil clean _)]
+        exact List.prefix_append _ _
+      have t1 := cleanOld_touched c' clean fs fs2 _ c.head hB hcl
+      have ha2 : HeadOk fs2 c'.altHead := by
+        rw [hah]
+        refine headok_kept t1 (fun r hr hne hk => ?_) hb.2.2
+        exact hap.2.2.2.1 (hk.trans hr)
+      obtain ⟨t2, hp2⟩ := altCreate_touched c' clean fs2 n q hq ha2
+      rw [hah] at t2 hp2
+      refine ⟨(t1.mono (fun x hx => Or.inl hx)).trans (t2.mono (fun x hx => Or.inr (Or.inr hx))), fun p h => ?_⟩
+      have := hp2 p h
+      obtain ⟨t, rfl⟩ := this
+      refine Or.inr (Or.inr ?_)
+      unfold dirname
+      rw [List.append_assoc, List.dropLast_append_of_ne_nil (altTail_append_ne_nil clean _)]
+      exact List.prefix_append _ _
+    · exact plain
 
 theorem reopenTail_inside (c : Cfg) (s2 : St) (reuse clean : Bool) (i2 : Inv c s2) :
     Touched s2.fs (reopenTail c s2 reuse clean).1.fs (InHead c) ∧ Inv c (reopenTail c s2 reuse clean).1 := by
   unfold reopenTail
   have hrem : Touched s2.fs
-      (match remake (cur c s2) clean s2.fs s2.tmpN with
+      (match remakeFull (cur c s2) clean s2.fs s2.tmpN with
         | (fs, n, Except.ok p) => (({ s2 with fs := fs, tmpN := n, path := some p, opened := true } : St), (Except.ok () : Except Exn Unit))
         | (fs, n, Except.error e) => ({ s2 with fs := fs, tmpN := n }, Except.error e)).1.fs (InHead c) ∧
-      Inv c (match remake (cur c s2) clean s2.fs s2.tmpN with
+      Inv c (match remakeFull (cur c s2) clean s2.fs s2.tmpN with
         | (fs, n, Except.ok p) => (({ s2 with fs := fs, tmpN := n, path := some p, opened := true } : St), (Except.ok () : Except Exn Unit))
         | (fs, n, Except.error e) => ({ s2 with fs := fs, tmpN := n }, Except.error e)).1 := by
-    obtain ⟨t2, hp2⟩ := remake_inside c (cur c s2) rfl rfl clean s2.fs s2.tmpN ⟨i2.2.1, i2.2.2.1⟩
-    generalize remake (cur c s2) clean s2.fs s2.tmpN = rr at t2 hp2
+    obtain ⟨t2, hp2⟩ := remakeFull_inside c (cur c s2) rfl rfl rfl i2.1 clean s2.fs s2.tmpN i2.2.1
+    generalize remakeFull (cur c s2) clean s2.fs s2.tmpN = rr at t2 hp2
     obtain ⟨fs2, n2, r2⟩ := rr
-    have hb := base_preserved c _ _ t2 i2.1 ⟨i2.2.1, i2.2.2.1⟩
+    have hb := base_preserved c _ _ t2 i2.1 i2.2.1
     cases r2 with
     | ok p =>
       simp only at t2 hp2 hb ⊢
-      exact ⟨t2, i2.1, hb.1, hb.2, fun q hq => by
+      exact ⟨t2, i2.1, hb, fun q hq => by
         simp only [Option.some.injEq] at hq; subst hq; exact hp2 p rfl⟩
     | error e =>
       simp only at t2 hb ⊢
-      exact ⟨t2, i2.1, hb.1, hb.2, fun q hq => i2.2.2.2 q hq⟩
+      exact ⟨t2, i2.1, hb, fun q hq => i2.2.2 q hq⟩
   cases hp : s2.path with
   | none =>
     simp only [hp, Bool.not_false, ↓reduceIte] at hrem ⊢
@@ -252,10 +315,10 @@ theorem reopenTail_inside (c : Cfg) (s2 : St) (reuse clean : Bool) (i2 : Inv c s
         | ok fs2 =>
           simp only
           have t2 : Touched s2.fs fs2 (InHead c) :=
-            ocfn_touched _ _ _ _ ((i2.2.2.2 p hp).mono (dirname_prefix p)) ho
-          have hb := base_preserved c _ _ t2 i2.1 ⟨i2.2.1, i2.2.2.1⟩
-          exact ⟨t2, i2.1, hb.1, hb.2, fun q hq => i2.2.2.2 q (by rw [hp]; exact hq)⟩
-      · exact ⟨Touched.refl _ _, i2.1, i2.2.1, i2.2.2.1, fun q hq => i2.2.2.2 q (by rw [hp]; exact hq)⟩
+            ocfn_touched _ _ _ _ ((i2.2.2 p hp).mono (dirname_prefix p)) ho
+          have hb := base_preserved c _ _ t2 i2.1 i2.2.1
+          exact ⟨t2, i2.1, hb, fun q hq => i2.2.2 q (by rw [hp]; exact hq)⟩
+      · exact ⟨Touched.refl _ _, i2.1, i2.2.1, fun q hq => i2.2.2 q (by rw [hp]; exact hq)⟩
 
 theorem reopen_inside (c : Cfg) (s : St) (clear reuse clean : Bool) (nt : Option Bool) (nf : Option (List Nat))
     (hi : Inv c s) :
@@ -287,6 +350,18 @@ theorem history_inside_head (c : Cfg) (steps : List Step) (s : St) (hi : Inv c s
       | close a => exact ⟨(close_inside c s a hi).1, (close_inside c s a hi).2.1⟩
       | exit a => exact ⟨(close_inside c s _ hi).1, (close_inside c s _ hi).2.1⟩
       | «exists» => exact ⟨Touched.refl _ _, hi⟩
+      | setName v => exact ⟨Touched.refl _ _, hi⟩
+      | setBase v => exact ⟨Touched.refl _ _, hi⟩
+      | setFiled b => exact ⟨Touched.refl _ _, hi⟩
+      | setExt b => exact ⟨Touched.refl _ _, hi⟩
+      | remake nm bs t cl f e =>
+        simp only [step]
+        obtain ⟨t2, _⟩ := remakeFull_inside c { cur c s with name := nm, base := bs, temp := t, filed := f, ext := e } rfl rfl rfl
+          hi.1 cl s.fs s.tmpN hi.2.1
+        generalize remakeFull { cur c s with name := nm, base := bs, temp := t, filed := f, ext := e } cl s.fs s.tmpN = rr at t2
+        obtain ⟨fs2, n2, r2⟩ := rr
+        have hb := base_preserved c _ _ t2 hi.1 hi.2.1
+        cases r2 <;> exact ⟨t2, hi.1, hb, fun q hq => hi.2.2 q hq⟩
       | doer t =>
         simp only [step]
         split
@@ -304,10 +379,19 @@ theorem history_inside_head (c : Cfg) (steps : List Step) (s : St) (hi : Inv c s
 
 /-- … in particular from a fresh object (the constructor is the first `reopen`, `.path` not yet set) -/
 theorem fresh_filer_history_inside_head (c : Cfg) (fs : FS) (steps : List Step)
-    (hap : ¬ c.tempHead <+: c.head ∧ ¬ c.head <+: c.tempHead)
-    (hb : HeadOk fs c.head) (hbt : ∀ q, q <+: c.tempHead → q ≠ [] → kind? fs q ≠ none) :
+    (hap : Apart c) (hb : Bases c fs) :
     Touched fs (runAll c (fresh c fs) steps).fs (InHead c) :=
-  (history_inside_head c steps (fresh c fs) ⟨hap, hb, hbt, fun p h => by cases h⟩).1
+  (history_inside_head c steps (fresh c fs) ⟨hap, hb, fun p h => by cases h⟩).1
+
+/-- an absolute `name` or `base` is refused by `remake` ITSELF — whoever calls it, with whatever the attributes were set
+to after construction: `FilerError`, nothing touched, no `mkdtemp` (the checks in `__init__` are not the only ones) -/
+theorem absolute_name_or_base_rejected_at_every_entry (c : Cfg) (clean : Bool) (fs : FS) (n : Nat)
+    (h : (isabs c.name || isabs c.base) = true) : remakeFull c clean fs n = (fs, n, .error .filerError) := by
+  have hr : rejected c = true := by simp only [rejected, h, Bool.true_or]
+  have h3 : (c.temp || isabs c.name || isabs c.base) = true := by
+    rcases Bool.or_eq_true _ _ |>.mp h with h' | h' <;> simp [h']
+  have hn : needsAlt c clean fs = none := by simp only [needsAlt, h3, ↓reduceIte]
+  simp [remakeFull, h, hn, remake_rejected c clean fs n hr]
 
 /-- C29.2 for the context manager: when `with openFiler(..., clear=cl)` is left, a temporary Filer, or any Filer
 opened with `clear=True`, has nothing left at its path — whatever happened inside the block, in particular also when
@@ -378,20 +462,24 @@ theorem reopen_to_temp_keeps_siblings (c : Cfg) (s : St) (p : P) (clear reuse cl
       · exact Touched.refl _ _
     | false =>
       simp only [Bool.not_false, ↓reduceIte]
-      have ht := (remake_inside_tempdir (cur c s2) clean s2.fs s2.tmpN (by simp [cur, ht1])
-        (by rw [hf1]; exact i1.2.2.1)).1
-      rw [hn1] at ht
-      have ht' := ht.mono (Q := fun x => c.tempHead ++ [tmpSeg s.tmpN] <+: x)
-        (R := fun x => p <+: x ∨ c.tempHead ++ [tmpSeg s.tmpN] <+: x) (fun x hx => Or.inr hx)
-      rw [hn1]
-      generalize remake (cur c s2) clean s2.fs s.tmpN = rr at ht'
+      have ht' : Touched s2.fs (remakeFull (cur c s2) clean s2.fs s2.tmpN).1
+          (fun x => p <+: x ∨ c.tempHead ++ [tmpSeg s.tmpN] <+: x) := by
+        rcases remakeFull_temp (cur c s2) clean s2.fs s2.tmpN (by simp [cur, ht1]) with h | h
+        · rw [h.1]; exact Touched.refl _ _
+        · rw [h]
+          have ht := (remake_inside_tempdir (cur c s2) clean s2.fs s2.tmpN (by simp [cur, ht1])
+            (by rw [hf1]; exact i1.2.1.2.1)).1
+          rw [hn1] at ht ⊢
+          exact ht.mono (Q := fun x => c.tempHead ++ [tmpSeg s.tmpN] <+: x)
+            (R := fun x => p <+: x ∨ c.tempHead ++ [tmpSeg s.tmpN] <+: x) (fun x hx => Or.inr hx)
+      generalize remakeFull (cur c s2) clean s2.fs s2.tmpN = rr at ht'
       obtain ⟨fs2, n2, r2⟩ := rr
       cases r2 <;> exact ht'
 
 /-! ### concrete witnesses and non-vacuity (tests on literals; the unbounded claims are the theorems above) -/
 
 def exCfg (temp filed : Bool) (name : List Nat) : Cfg :=
-  ⟨name, [], [116], temp, filed, false, [[104]], [[116]], false, false⟩      -- head "/h", temp head "/t", fext "t"
+  ⟨name, [], [116], temp, filed, false, [[104]], [[116]], [[97]], false, false⟩      -- head "/h", temp head "/t", alt head "/a", fext "t"
 def exFs : FS := [([[104]], .dir), ([[116]], .dir)]
 def exMain : List Nat := [109]                                      -- "m"
 
@@ -415,6 +503,41 @@ theorem reuse_with_temp_flip_clears_holding_dir :
     let s3 := (close c s2 true).1
     s2.path = s1.path ∧ s2.temp = true ∧ ([[104], [104, 105, 111], [107]], Kind.file) ∈ s2.fs ∧
       kind? s3.fs [[104], [104, 105, 111], [107]] = none := by
+  decide
+
+/-- C29-K3: a persistent filed Filer, `reopen(temp=True)` while `TempHeadDir` does not exist: `mkdtemp` raises, the old
+persistent path is kept, but `.temp` is `True` already (the settings are taken over before `remake` runs); the later
+`close(clear=True)` applies the temp rule and removes the whole holding directory with another Filer's file in it -/
+theorem failed_reopen_to_temp_clears_holding_dir :
+    let c := exCfg false true exMain
+    let fs0 : FS := [([[104]], .dir), ([[104], [104, 105, 111]], .dir), ([[104], [104, 105, 111], [107]], .file)]
+    let s1 := (reopen c (fresh c fs0) false false false none none).1
+    let r2 := reopen c s1 false false false (some true) none
+    let s3 := (close c r2.1 true).1
+    (match r2.2 with | .error .osError => true | _ => false) = true ∧ r2.1.path = s1.path ∧ r2.1.temp = true ∧
+      ([[104], [104, 105, 111], [107]], Kind.file) ∈ r2.1.fs ∧ kind? s3.fs [[104], [104, 105, 111], [107]] = none := by
+  decide
+
+/-- the head-directory parameter: only `None` selects the class default — the empty string is a head of its own … -/
+theorem only_none_selects_the_class_default (h d : List Nat) :
+    chooseHead (some h) d = h ∧ chooseHead none d = d := ⟨rfl, rfl⟩
+
+/-- … namely the current directory; `~` is the home directory; an absolute head is itself -/
+theorem empty_head_is_the_current_directory (home cwd : P) :
+    resolveHead home cwd [] = cwd ∧ resolveHead home cwd [46] = cwd ∧ resolveHead home cwd [126] = home := by
+  refine ⟨?_, ?_, rfl⟩ <;> simp [resolveHead, splitSlash, walk, isSkip]
+
+/-- a symbolic link sitting at `.path`: clearing removes the LINK (a filed Filer) or refuses (`rmtree` on a link to a
+directory raises) — the link's target outside the head is never touched (in general: `clear_within_path`) -/
+theorem clear_removes_the_link_not_its_target :
+    let fsF : FS := [([[104]], .dir), ([[104], [104, 105, 111]], .dir), ([[104], [104, 105, 111], [109, 46, 116]], .flink), ([[111]], .dir), ([[111], [116]], .file)]
+    let fsD : FS := [([[104]], .dir), ([[104], [104, 105, 111]], .dir), ([[104], [104, 105, 111], [109]], .dlink), ([[111]], .dir), ([[111], [100]], .dir)]
+    (match clearPath (exCfg false true exMain) fsF (some [[104], [104, 105, 111], [109, 46, 116]]) with
+      | .ok fs' => (kind? fs' [[104], [104, 105, 111], [109, 46, 116]]).isNone && (kind? fs' [[111], [116]] == some .file)
+      | .error _ => false) = true ∧
+    (match clearPath (exCfg false false exMain) fsD (some [[104], [104, 105, 111], [109]]) with
+      | .ok _ => false
+      | .error _ => true) = true := by
   decide
 
 /-- `name = "../../x"` is rejected -/
